@@ -140,6 +140,8 @@ def run(chk):
     skipped = [0]
 
     def hook(kind, node, env, args):
+        if kind == "div":
+            return
         if kind == "pow":
             base, ex = args
             exc = dag.as_const(ex) if not isinstance(ex, (Arr, Top)) else None
@@ -197,6 +199,60 @@ def run(chk):
                    where=f"{rec['mod']}:{rec['line']}", instance=text,
                    detail=f"{rec['n']} evaluations, {len(rec['neg'])} negative, complex-typed={rec['cplx']}")
     chk.floor("kernel extractions with domain hook", n_runs, 128)
+    # ---- (2b) divisions by a constant of the configuration that vanishes for some nf (real parts taken literally) ---------------
+    from .. import numeval
+
+    zero_div = {}
+    n_div = [0]
+
+    def div_hook(kind, node, env, args, cur=[None]):
+        if kind != "div":
+            return
+        b = args[1]
+        if isinstance(b, (Arr, Top)) or isinstance(b, bool):
+            return
+        nd = dag.tonode(b)
+        if dag.as_const(nd) is not None or (dag.symbols(nd) - {"I", "pi"}):
+            return            # plain rationals are decided by the evaluator itself; couplings / moments are not constants
+        unk = set()
+        try:
+            v = numeval.evaluate(nd, {}, uninterpreted=unk)
+        except Exception:
+            return
+        if unk:
+            return
+        n_div[0] += 1
+        if abs(v) < 1e-40:
+            zero_div.setdefault((env.func_name, stmt_text(node)[:100], env.module.relpath, node.lineno), set()).add(div_ctx[0])
+
+    div_ctx = [None]
+    pe3 = PE(src, assume=kern.assume_distinct_couplings, real_is_identity=False)
+    pe3.ext["builtins.complex"] = kern._complex
+    pe3.site_hook = div_hook
+    M3 = pe3.enum_members(pe3.get_global("eko.kernels", "EvoMethods").cls)
+    for nfc in (3, 4, 5, 6):
+        div_ctx[0] = f"nf={nfc}"
+        for n in (1, 2, 3, 4):
+            g = kern.ns_gamma(n)
+            G = kern.sg_gamma(n)
+            for mname, mem in M3.items():
+                try:
+                    pe3.call(f"{kern.NS}.dispatcher", [(n, 0), mem, g, a1, a0, nfc])
+                    pe3.call(f"{kern.SG}.dispatcher", [(n, 0), mem, G, a1, a0, nfc, 2, (n + 1, 0)])
+                except PERaise as e:
+                    if e.etype == "ZeroDivisionError":
+                        zero_div.setdefault((f"{kern.NS}/{kern.SG}.dispatcher", f"order {n}, {mname}: {e.message}", "src/eko/kernels", 0), set()).add(div_ctx[0])
+            for m in (1, 2):
+                Gq = Arr.from_nested([[dag.sym(f"G{i}_{j}") for j in range(m + 1)] for i in range(n + 1)])
+                pe3.call(f"{kern.QNS}.fixed_alphaem_exact", [(n, m), Gq, a1, a0, dag.sym("aem"), nfc, dag.sym("m0"), dag.sym("m1")])
+    for (fname, text, mod, line), nfs in sorted(zero_div.items()):
+        chk.fail("division-by-a-vanishing-configuration-constant", fname,
+                 f"`{text}` divides by a constant of the configuration that is exactly zero for {sorted(nfs)} (e.g. the real part of a purely "
+                 f"imaginary square root): the kernel is NaN under the interpreter and raises ZeroDivisionError when compiled", where=f"{mod}:{line}",
+                 instance=text)
+    if not zero_div:
+        chk.ok("division-by-a-vanishing-configuration-constant", "eko.kernels", f"{n_div[0]} divisions by configuration constants evaluated for nf 3..6")
+    chk.floor("divisions by configuration constants", n_div[0], 20)
     chk.floor("real-domain call sites with constant argument", len(sites), 3)
 
     # ---- (3) clean refusals in kernel dispatchers ---------------------------------------------------------------
